@@ -537,7 +537,8 @@ def judge_schedule(pair, job, xs):
     return None
 
 
-def check(run):
+def check(run, only=None):
+    """only: replay mode — judge just these (class, parameter) pairs on the implementation (no Coq involved)"""
     rng = run.rng
     thorough = run.tier == "thorough"
     try:
@@ -545,7 +546,10 @@ def check(run):
         view = REG.coq_view(COQDIR)
     except REG.RegistryError as e:
         raise CheckError("registry: %s" % e)
-    judged = registry_checks(run, pairs, outside, view)
+    if only is None:
+        judged = registry_checks(run, pairs, outside, view)
+    else:
+        judged = {k: i for k, i in pairs.items() if k in only and i["mode"] in ("value", "items")}
     per_pair = 60 if thorough else 8
     reported = set()
 
@@ -765,7 +769,7 @@ def check(run):
                         "python": rj.python()})
         return insts
 
-    insts = process(sorted(judged), per_pair)
+    insts = process(sorted(judged), per_pair if only is None else 40)
     for attempt in range(3):          # pairs whose varying cases all happened to coincide with the constant run: more instances
         again = [p for p, n in discriminating.items() if n == 0 and p not in NO_DISCRIMINATION]
         if not again or run.violations:
@@ -776,10 +780,13 @@ def check(run):
     run.cov["pairs_without_discriminating_varying_case"] = weak
 
     extra_checks(run, rng, report, thorough)
+    if only is not None:
+        return
     model_checks(run, insts, report)
-    run.sample({"pair": "%s.%s" % insts[0]["pair"], "scalar": to_source(insts[0]["scalar"].expr),
-                "varying": to_source(insts[0]["varying"].expr), "outputs": pretty_list(insts[0]["varying"].obs),
-                "calls": [c[0] for c in insts[0]["varying"].res["calls"]]})
+    if insts:
+      run.sample({"pair": "%s.%s" % insts[0]["pair"], "scalar": to_source(insts[0]["scalar"].expr),
+                  "varying": to_source(insts[0]["varying"].expr), "outputs": pretty_list(insts[0]["varying"].obs),
+                  "calls": [c[0] for c in insts[0]["varying"].res["calls"]]})
     run.cov["rule"] = ("one evaluation = one run of a form of one (class, parameter) instance; non-trivial: the constant forms produced "
                        "at least one output; a varying / retarget case is non-trivial when its outputs differ from those of the same "
                        "class with the parameter fixed to the first value (reading the parameter once would be noticed)")
@@ -948,12 +955,20 @@ def model_checks(run, insts, report):
 
 
 def replay(run, doc):
-    py = doc.get("python")
-    if not py or "case" not in doc:
+    """prints the recorded case and re-judges the (class, parameter) pair of the signature on the implementation with
+    fresh instances (40 per pair, all oracles except the Coq model)"""
+    if "case" not in doc:
         print("replay: no concrete case recorded (%s)" % doc.get("broken", "?"))
         return 1
-    print(py)
+    print(doc.get("python"))
     print("expected:", doc.get("expected"))
     print("observed:", doc.get("observed"))
-    print("VIOLATION property=C12 replay=(recorded)")
-    return 1
+    sig = doc.get("signature", {})
+    only = {(sig["class"], sig["param"])} if "class" in sig and "param" in sig else set()
+    run.rng.seed(doc.get("seed", 1))
+    check(run, only=only)
+    if run.violations:
+        print("VIOLATION property=C12 replay=(replayed)")
+        return 1
+    print("replay: the property holds on the re-generated cases of this pair")
+    return 0
